@@ -101,6 +101,123 @@ theorem setInflight_inflight (w : World) (sid : Sid) (b : Bool) (h : (w.sess? si
       by_cases hx : x.sid = sid <;> simp [hx]
     simp [this, hs]
 
+/-- releasing a slot keeps every session where it is and never takes a slot -/
+theorem setInflight_false_sess (w : World) (a b : Sid) :
+    ((w.setInflight a false).sess? b).isSome = (w.sess? b).isSome ∧
+    (w.inflight b = false → (w.setInflight a false).inflight b = false) := by
+  unfold World.setInflight World.inflight World.sess?
+  simp only [List.find?_map]
+  have hfun : ((fun x : Sess => decide (x.sid = b)) ∘ fun x => if x.sid = a then { x with inflight := false } else x) =
+      (fun x : Sess => decide (x.sid = b)) := by
+    funext x
+    simp only [Function.comp]
+    by_cases hx : x.sid = a <;> simp [hx]
+  rw [hfun]
+  constructor
+  · cases w.sess.find? (fun x => decide (x.sid = b)) <;> simp
+  · intro h
+    cases hf : w.sess.find? (fun x => decide (x.sid = b)) with
+    | none => simp
+    | some s =>
+      simp only [hf] at h
+      simp only [Option.map_some]
+      by_cases hx : s.sid = a <;> simp [hx, h]
+
+/-- what a terminating topic does with one queued request never takes a slot and loses no session -/
+theorem handleHeld_exiting_keeps (c : Ctx) (r : HeldReq) (b : Sid) :
+    (((c.handleHeld r true).w.sess? b).isSome = (c.w.sess? b).isSome) ∧
+    (c.w.inflight b = false → (c.handleHeld r true).w.inflight b = false) := by
+  by_cases h1 : r.kind = "sub"
+  · rw [((handleHeld_exiting c r).1 h1).2]; exact setInflight_false_sess _ _ _
+  · by_cases h2 : r.kind = "leave"
+    · rw [((handleHeld_exiting c r).2.2 h2).2]; exact setInflight_false_sess _ _ _
+    · by_cases h3 : r.kind = "pub"
+      · rw [((handleHeld_exiting c r).2.1 h3).2]; exact ⟨rfl, fun h => h⟩
+      · have : c.handleHeld r true = c := by
+          unfold Ctx.handleHeld
+          split <;> simp_all
+        rw [this]; exact ⟨rfl, fun h => h⟩
+
+theorem drain_keeps (rs : List HeldReq) (c : Ctx) (b : Sid) :
+    (((rs.foldl (fun c r => c.handleHeld r true) c).w.sess? b).isSome = (c.w.sess? b).isSome) ∧
+    (c.w.inflight b = false → (rs.foldl (fun c r => c.handleHeld r true) c).w.inflight b = false) := by
+  induction rs generalizing c with
+  | nil => exact ⟨rfl, fun h => h⟩
+  | cons r rs ih =>
+    simp only [List.foldl_cons]
+    have h1 := handleHeld_exiting_keeps c r b
+    have h2 := ih (c.handleHeld r true)
+    exact ⟨h2.1.trans h1.1, fun h => h2.2 (h1.2 h)⟩
+
+/-- the slot of every {sub} and {leave} the drain comes to is released (and stays released) -/
+theorem drain_releases (rs : List HeldReq) (c : Ctx) (r : HeldReq) (hr : r ∈ rs) (hk : r.kind = "sub" ∨ r.kind = "leave")
+    (hs : (c.w.sess? r.a.sid).isSome) :
+    (rs.foldl (fun c r => c.handleHeld r true) c).w.inflight r.a.sid = false := by
+  induction rs generalizing c with
+  | nil => cases hr
+  | cons x rs ih =>
+    simp only [List.foldl_cons]
+    rcases List.mem_cons.mp hr with rfl | hin
+    · apply (drain_keeps rs (c.handleHeld r true) r.a.sid).2
+      have hw : (c.handleHeld r true).w = c.w.setInflight r.a.sid false := by
+        rcases hk with hk | hk
+        · exact ((handleHeld_exiting c r).1 hk).2
+        · exact ((handleHeld_exiting c r).2.2 hk).2
+      rw [hw]
+      exact setInflight_inflight c.w r.a.sid false hs
+    · apply ih _ hin
+      rw [(handleHeld_exiting_keeps c x r.a.sid).1]
+      exact hs
+
+/-- **No session is left waiting when a topic stops.** The single in-flight slot of every session whose {sub} or {leave} is still in
+the topic's queue when it terminates is released: the session's next {sub} or {leave}, and its cleanup, go on -/
+theorem exit_releases_slots (c : Ctx) (t : Topic) (r : HeldReq) (hr : r ∈ t.q) (hk : r.kind = "sub" ∨ r.kind = "leave")
+    (hs : (c.w.sess? r.a.sid).isSome) :
+    (c.exitPart t).w.inflight r.a.sid = false := by
+  unfold Ctx.exitPart
+  apply drain_releases
+  · simp only [List.mem_append, List.mem_filter, decide_eq_true_eq]
+    rcases hk with hk | hk
+    · exact Or.inl (Or.inl ⟨hr, hk⟩)
+    · exact Or.inl (Or.inr ⟨hr, hk⟩)
+  · exact hk
+  · -- detaching the topic's sessions and telling the subscribers keeps every session where it is
+    show ((_ : Ctx).w.sess? r.a.sid).isSome
+    have hdet : ∀ (l : List (Sid × Uid)) (c0 : Ctx), (c0.w.sess? r.a.sid).isSome →
+        ((l.foldl (fun c (p : Sid × Uid) => { c with w := c.w.detach p.1 t.name }) c0).w.sess? r.a.sid).isSome := by
+      intro l
+      induction l with
+      | nil => intro c0 h; exact h
+      | cons p l ih =>
+        intro c0 h
+        simp only [List.foldl_cons]
+        apply ih
+        show ((c0.w.detach p.1 t.name).sess? r.a.sid).isSome
+        unfold World.detach
+        cases hp : c0.w.sess? p.1 with
+        | none => simpa using h
+        | some sp =>
+          simp only
+          unfold World.setSess World.sess? at *
+          simp only [List.find?_map]
+          have hfun : ((fun x : Sess => decide (x.sid = r.a.sid)) ∘ fun x =>
+              if x.sid = ({ sp with subs := sp.subs.filter (· ≠ t.name) } : Sess).sid then { sp with subs := sp.subs.filter (· ≠ t.name) } else x) =
+              (fun x : Sess => decide (x.sid = r.a.sid)) := by
+            funext x
+            simp only [Function.comp]
+            by_cases hx : x.sid = sp.sid
+            · simp [hx]
+            · simp [hx]
+          rw [hfun]
+          cases hq : c0.w.sess.find? (fun x => decide (x.sid = r.a.sid)) with
+          | none => rw [hq] at h; simp at h
+          | some _ => simp
+    have hpre : ((if t.exitDeleted && t.isGrpCat then c.presSubsOffline t "gone" "" "" "" 0 0 { what := "gone" } "" false else c).w.sess? r.a.sid).isSome := by
+      split
+      · exact hs
+      · exact hs
+    exact hdet _ _ hpre
+
 /-- the hub does not hand a {sub} to a topic which is inactive (paused, being deleted): it refuses it and releases the slot -/
 theorem hub_refuses_inactive (c : Ctx) (r : HeldReq) (t : Topic) (hl : c.w.live? r.tn = some t) (hin : t.inactive = true) :
     (c.hubJoinOne r).frames = c.frames ++ [(r.a.sid, ctrl 503 r.tn)] ∧ (c.hubJoinOne r).w = c.w.setInflight r.a.sid false := by
